@@ -93,12 +93,18 @@ def validate(pid, wdir, vh, cases, tag, workers=12):
         os.remove(rejf)
     vlib.run_harness(vh, ["client", casef, obsf], timeout=2400)
     cfg = "ClientTrace_match.cfg" if pid == "C12" else "ClientTrace_hist.cfg"
-    r = vlib.tlc("ClientTrace", os.path.join(vlib.SPEC, cfg), wdir, env={"VERIF_OBS": obsf, "VERIF_REJ": rejf},
-                 workers=workers, timeout=2400, heap="12g")
-    vlib.tlc_must_pass(r, "ClientTrace " + tag)
-    obs = vlib.read_ndjson(obsf)
-    rej = [x for x in vlib.read_ndjson(rejf) if x["law"] != "stats"]
-    return r, obs, rej
+    st, gn, rej, lines = vlib.tlc_chunks("ClientTrace", os.path.join(vlib.SPEC, cfg), wdir, obsf, 6000 if pid == "C12" else 1500,
+                                         "ClientTrace " + tag, workers=max(2, workers // 3))
+    obs = [json.loads(l) for l in lines]
+    out = []
+    for idx, x in rej:
+        x = dict(x)
+        x["n"] = idx
+        out.append(x)
+
+    class R:
+        distinct, generated = st, gn
+    return R, obs, out
 
 
 def run(ctx, pid):
